@@ -665,9 +665,12 @@ fn c06(cx: &Ctx) {
             let end = |o: &Origin| {
                 let mut e = o.done.min(o.dropped);
                 // orphaned by an explicit insert or by a cancellation: foyer lets it run out
+                // the round exists from the invocation of the fetch that owns the origin (the origin itself is first
+                // polled later, by the fetch task): an insert that returns after that may have closed the round
+                let registered = cx.log.oplog.iter().find(|q| matches!(&q.op, Op::Fetch { k, ver, .. } if *k == o.k && *ver == o.ver)).map(|q| q.inv).unwrap_or(o.start);
                 for r in &cx.log.oplog {
                     match &r.op {
-                        Op::Insert { k, .. } if *k == o.k && r.inv > o.start => e = e.min(r.inv),
+                        Op::Insert { k, .. } if *k == o.k && r.ret > registered => e = e.min(r.inv.max(registered)),
                         Op::Ctl { what: 1, .. } if r.inv > o.start => e = e.min(r.inv),
                         _ => {}
                     }
